@@ -14,11 +14,13 @@ from harness import mp_obs
 CFW_IDS = {"PyArrowTable": 0, "PandasDataFrame": 1, "PythonDictFramework": 2}
 DT_IDS = {"INT32": 1, "INT64": 2, "FLOAT": 3, "DOUBLE": 4, "STRING": 5, "BOOLEAN": 6}
 JT_IDS = {"INNER": 0, "LEFT": 1, "RIGHT": 2, "OUTER": 3, "APPEND": 4, "UNION": 5}
+DOM_IDS = {"default_domain": 0, "sales": 1, "finance": 2, "geo": 3}      # 0 = Domain.get_default_domain()
 
 
 class Uni7(Universe):
     """Universe + groups of kind "api" (root whose data arrives through api_data[key]) + per-group data type rule +
-    input features carrying a Link ("input_link": {input name: link index} with self.link_objs set by the caller).
+    input features carrying a Link ("input_link": {input name: link index} with self.link_objs set by the caller) or an
+    explicit domain ("input_dom": {input name: domain name}) + per-group domain ("domain": name -> get_domain()).
 
       {"name": "A0", "kind": "api", "cfw": "PyArrowTable", "key": "K0", "cols": {"a": [..], ..}, "features": {"a": {}, ..}}
     """
@@ -32,7 +34,7 @@ class Uni7(Universe):
         uni = self
         if g["kind"] != "api":
             cls = super()._make_group(g)
-            if g["kind"] == "derived" and any(d.get("input_link") for d in g["features"].values()):
+            if g["kind"] == "derived" and any(d.get("input_link") or d.get("input_dom") for d in g["features"].values()):
                 from mloda.user import Feature
                 feats = g["features"]
 
@@ -41,7 +43,13 @@ class Uni7(Universe):
                     res = set()
                     for i in _f[n]["inputs"]:
                         li = (_f[n].get("input_link") or {}).get(i)
-                        res.add(Feature(i, link=uni.input_links[li]) if li is not None else Feature(i))
+                        dm = (_f[n].get("input_dom") or {}).get(i)
+                        kw: Dict[str, Any] = {}
+                        if li is not None:
+                            kw["link"] = uni.input_links[li]
+                        if dm is not None:
+                            kw["domain"] = dm
+                        res.add(Feature(i, **kw))
                     return res
                 cls.input_features = input_features  # type: ignore[attr-defined]
         else:
@@ -75,6 +83,9 @@ class Uni7(Universe):
             cls.__module__ = "harness.dynclasses"
             cls.__qualname__ = cname
             setattr(_dyn, cname, cls)
+        if g.get("domain"):
+            from mloda.user import Domain
+            cls.get_domain = classmethod(lambda c, _d=g["domain"]: Domain(_d))  # type: ignore[attr-defined]
         if g.get("dtype_rule"):
             from mloda.core.abstract_plugins.components.data_types import DataType
             dt = DataType[g["dtype_rule"]]
@@ -229,9 +240,18 @@ def cq_link(l: Dict[str, Any]) -> str:
             f"l_li := {cq_list(cq_str(x) for x in l['li'])}; l_ri := {cq_list(cq_str(x) for x in l['ri'])} |}}")
 
 
+def cq_onat(v: Optional[int]) -> str:
+    return "None" if v is None else f"(Some {cq_nat(v)})"
+
+
+def cq_onats(v: Optional[List[int]]) -> str:
+    return "None" if v is None else "(Some " + cq_list(cq_nat(c) for c in v) + ")"
+
+
 def cq_flt(f: Dict[str, Any]) -> str:
     return (f"{{| ft_name := {cq_str(f['name'])}; ft_opts := {cq_opts(f['opts'])}; ft_type := {cq_str(f['type'])}; "
-            f"ft_param := {cq_list(f'({cq_str(k)}, {cq_z(int(v))})' for k, v in sorted(f['param'].items()))} |}}")
+            f"ft_param := {cq_list(f'({cq_str(k)}, {cq_z(int(v))})' for k, v in sorted(f['param'].items()))}; "
+            f"ft_dom := {cq_onat(f.get('dom'))}; ft_cfw := {cq_onats(f.get('cfw'))} |}}")
 
 
 def cq_fobj(f: Dict[str, Any]) -> str:
@@ -239,7 +259,7 @@ def cq_fobj(f: Dict[str, Any]) -> str:
     dt = "None" if f["dtype"] is None else f"(Some {cq_nat(f['dtype'])})"
     lk = "None" if f["link"] is None else f"(Some {cq_link(f['link'])})"
     return (f"{{| f_name := {cq_str(f['name'])}; f_opt := {cq_nat(f['opt'])}; f_cfw := {cf}; f_flag := {cq_bool(f['flag'])}; "
-            f"f_dtype := {dt}; f_uuid := {cq_nat(f['uuid'])}; f_link := {lk} |}}")
+            f"f_dtype := {dt}; f_uuid := {cq_nat(f['uuid'])}; f_link := {lk}; f_dom := {cq_onat(f.get('dom'))} |}}")
 
 
 def cq_oobj(o: Dict[str, Any]) -> str:
